@@ -433,6 +433,20 @@ EGLPNUM_TYPENAME_QSLIB_INTERFACE int EGLPNUM_TYPENAME_QSopt_pivotin_row (
 	{
 		ILL_ERROR (rval, "pricing info not available in EGLPNUM_TYPENAME_QSopt_pivotin_row\n");
 	}
+	{
+		int k;
+		if (rcnt > 0 && (p->lp->vstat == 0 || p->factorok == 0))
+		{
+			ILL_ERROR (rval, "no factored basis available in EGLPNUM_TYPENAME_QSopt_pivotin_row\n");
+		}
+		for (k = 0; k < rcnt; k++)
+		{
+			if (rlist[k] < 0 || rlist[k] >= p->qslp->nrows)
+			{
+				ILL_ERROR (rval, "row index out of range in EGLPNUM_TYPENAME_QSopt_pivotin_row\n");
+			}
+		}
+	}
 
 	rval = EGLPNUM_TYPENAME_ILLsimplex_pivotin (p->lp, p->pricing, rcnt, rlist,
 														 SIMPLEX_PIVOTINROW, &basismod);
@@ -460,6 +474,20 @@ EGLPNUM_TYPENAME_QSLIB_INTERFACE int EGLPNUM_TYPENAME_QSopt_pivotin_col (
 	if (p->pricing == 0)
 	{
 		ILL_ERROR (rval, "pricing info not available in QSopt_pivotin\n");
+	}
+	{
+		int k;
+		if (ccnt > 0 && (p->lp->vstat == 0 || p->factorok == 0))
+		{
+			ILL_ERROR (rval, "no factored basis available in QSopt_pivotin\n");
+		}
+		for (k = 0; k < ccnt; k++)
+		{
+			if (clist[k] < 0 || clist[k] >= p->qslp->ncols)
+			{
+				ILL_ERROR (rval, "column index out of range in QSopt_pivotin\n");
+			}
+		}
 	}
 
 	rval = EGLPNUM_TYPENAME_ILLsimplex_pivotin (p->lp, p->pricing, ccnt, clist,
